@@ -59,7 +59,7 @@ def extra_scenarios(tier, seed):
             "V": V, "mask": mask, "x": [1, -1, 2], "R": R, "P": P,
             "rw": [int(w) for w in rng.integers(0, 3, R)] if rng.random() < 0.8 else [1] * R, "ow": [3, 1],
             "est": [["mean", "std"][int(rng.integers(2))] for _ in range(3)],
-            "flt": [[-1, -1, -1], [0, -1, -1], [1, 1, -1]][int(rng.integers(3))],
+            "flt": [[-1, -1, -1], [0, -1, -1], [1, 1, -1], [-1, -1, 2], [0, 3, 3], [2, -1, 2]][int(rng.integers(6))],
             "a": rng.integers(-2, 3, (R, 3, V)).tolist(), "b": rng.integers(-1, 2, (R, 3)).tolist(),
             "minsucc": int(rng.integers(0, R + 1)), "pms": int(rng.integers(1, P + 1)), "merged": False, "shared": True,
             "ident": False, "nanF": [int(c) for c in rng.integers(0, 4, R) * (rng.random(R) < 0.25)],
@@ -77,7 +77,7 @@ def extra_scenarios(tier, seed):
         # random scenarios therefore use no filter when an objective column has ties
         a = np.array(out[-1]["a"]); b = np.array(out[-1]["b"]); x = np.array([1, -1, 2])
         cols = a @ x + b
-        if len(set(cols[:, 0])) < R or len(set(cols[:, 1])) < R:
+        if len(set(cols[:, 0])) < R or len(set(cols[:, 1])) < R or len(set(cols[:, 2])) < R:
             out[-1]["flt"] = [-1, -1, -1]
     return out
 
